@@ -56,8 +56,10 @@ func (s *swapDA) SubmitWithOptions(ctx context.Context, b []coreda.Blob, g float
 func (s *swapDA) Validate(ctx context.Context, ids []coreda.ID, p []coreda.Proof, ns []byte) ([]bool, error) {
 	return s.get().Validate(ctx, ids, p, ns)
 }
-func (s *swapDA) GasPrice(ctx context.Context) (float64, error)      { return s.get().GasPrice(ctx) }
-func (s *swapDA) GasMultiplier(ctx context.Context) (float64, error) { return s.get().GasMultiplier(ctx) }
+func (s *swapDA) GasPrice(ctx context.Context) (float64, error) { return s.get().GasPrice(ctx) }
+func (s *swapDA) GasMultiplier(ctx context.Context) (float64, error) {
+	return s.get().GasMultiplier(ctx)
+}
 
 type c16Proxy struct {
 	swap   *swapDA
